@@ -379,4 +379,39 @@ def c09_scan(tier, seed):
 
 E('C09', c09_scan)
 
+# ----------------------------------------------------------------------------- C10
+prop('C10', 'other',
+     'Proved for all inputs: tan_range(x) is x mod phi for every x >= 0 (INT), hence tan_range(x + k*phi) == tan_range(x); '
+     'tan depends on a non-negative argument only through tan_range (INT, determinism abstraction of tan_range), which '
+     'together give tan(x + k*phi) == tan(x); tan(-x) == -tan(x) for every finite x (INT lemma over the real function, '
+     'including the signed NaN at the pole); tan is NaN exactly when |x| mod phi equals the library pi/2 constant and is '
+     'finite otherwise, with every intermediate of the series and of the final division free of overflow and division '
+     'by zero (CBMC/kissat with tan_range replaced by its contract). The accuracy clause needs the real tangent and is '
+     'decided by exhaustive native enumeration of all 411,775 raw x in [-pi, pi] against tanl -- stand-in, not proved.',
+     technique='INT back end for range reduction/periodicity/oddness; CBMC contracts + kissat for pole/NaN/UB of the kernel; exhaustive native stand-in for accuracy',
+     assumptions=['glibc tanl (long double) as the accuracy oracle of the stand-in'])
+TAN = '_ZN9fixedmath3tanENS_7fixed_tE'
+TAN_RANGE = '_ZN9fixedmath6detail9tan_rangeEl'
+K_TAN_RANGE = (TAN_RANGE, 'pre_tan_range', 'post_tan_range')
+U('C10', 'c10.constants', 'lem_c10_constants', None, None, lemma=True, cxx='lem_c10_constants()')
+U('C10', 'c10.tan_range', TAN_RANGE, 'pre_tan_range', 'post_tan_range', cxx='fixedmath::detail::tan_range($1)', **INTQ)
+U('C10', 'c10.range_period', 'lem_c10_range_period', 'pre_c10_per', None, lemma=True, cxx='lem_c10_range_period($1,$2)', **INTQ)
+TAN_K = '_ZN9fixedmath6detail4tan_ILi20EEEll'
+DIV16 = '_ZN9fixedmath6detail4div_ILi16EEElll'
+K_TAN_K = (TAN_K, 'pre_tan_k', 'post_tan_k')
+K_DIV16 = (DIV16, 'pre_div16', 'post_div16')
+UFP = [(TAN_RANGE, 'UF', 'post_tan_range'), (TAN_K, 'UF', 'post_tan_k'), (DIV16, 'UF', 'post_div16')]
+U('C10', 'c10.tan_k', TAN_K, 'pre_tan_k', 'post_tan_k', cxx='fixedmath::detail::tan_<20>($1)', backends=MULBE, timeout=1800, split=True)
+U('C10', 'c10.div16', DIV16, 'pre_div16', 'post_div16', cxx='fixedmath::detail::div_<16>($1,$2)', **INTQ)
+U('C10', 'c10.tan_factors', 'lem_c10_tan_factors', 'pre_c10_nonneg2', None, lemma=True, cxx='lem_c10_tan_factors($1,$2)', replace=UFP, backends=('sat', 'kissat'), timeout=300)
+U('C10', 'c10.odd', 'lem_c10_odd', 'pre_valid1', None, lemma=True, cxx='lem_c10_odd($1)', replace=UFP, backends=('sat', 'kissat'), timeout=300)
+U('C10', 'c10.tan', TAN, 'pre_valid1', 'post_tan', replace=[K_TAN_RANGE, K_TAN_K, K_DIV16], cxx='fixedmath::tan($1)', **INTQ)
+
+
+def c10_scan(tier, seed):
+    return _native.run_native('c10_tan_scan', 'c10_tan_scan.cc', 'abacus', [], label='exhaustive stand-in (not proved): accuracy clause of C10')
+
+
+E('C10', c10_scan)
+
 NOT_APPLICABLE = {}
